@@ -38,6 +38,13 @@ func c09Round(c *mon.Ctx, r *mon.Rand) {
 	cached := r.Bool()
 	var rec *mon.Recorder
 	opts := tally.ScopeOptions{OmitCardinalityMetrics: r.Bool()}
+	// half of the rounds: the root carries the tag the tagged children set, so
+	// that those children override a value and add no key of their own
+	var rootTags map[string]string
+	if r.Bool() {
+		rootTags = map[string]string{"kid": "parent", "rt": "x"}
+		opts.Tags = map[string]string{"kid": "parent", "rt": "x"}
+	}
 	if cached {
 		cr := mon.NewCachedRec(true)
 		rec = cr.Recorder
@@ -64,7 +71,7 @@ func c09Round(c *mon.Ctx, r *mon.Rand) {
 	defer inj.Uninstall()
 	root, _ := vNewRoot(opts, 0, shards)
 	existing := root.Counter("existing")
-	desc := map[string]interface{}{"cached": cached, "shards": shards, "goroutines": N, "names": nNames, "children": nKids}
+	desc := map[string]interface{}{"cached": cached, "shards": shards, "goroutines": N, "names": nNames, "children": nKids, "root_tags": rootTags}
 	c.LogCase(fmt.Sprint(desc))
 	stopWatch := c.Watchdog(300*time.Second, "no-progress(deadlock?)", desc)
 	defer stopWatch()
@@ -75,6 +82,7 @@ func c09Round(c *mon.Ctx, r *mon.Rand) {
 		gauges    [][]tally.Gauge
 		timers    [][]tally.Timer
 		hists     [][]tally.Histogram
+		mixed     []tally.Histogram // [kid]: one name requested with value buckets by even goroutines, duration buckets by odd ones
 	}
 	res := make([]got, N)
 	hist := mon.NewHistRecorder()
@@ -125,6 +133,7 @@ func c09Round(c *mon.Ctx, r *mon.Rand) {
 			out.gauges = make([][]tally.Gauge, nKids)
 			out.timers = make([][]tally.Timer, nKids)
 			out.hists = make([][]tally.Histogram, nKids)
+			out.mixed = make([]tally.Histogram, nKids)
 			for _, k := range order {
 				call := hist.Tick()
 				var s tally.Scope
@@ -140,6 +149,11 @@ func c09Round(c *mon.Ctx, r *mon.Rand) {
 				out.gauges[k] = make([]tally.Gauge, nNames)
 				out.timers[k] = make([]tally.Timer, nNames)
 				out.hists[k] = make([]tally.Histogram, nNames)
+				if g%2 == 0 {
+					out.mixed[k] = s.Histogram("mixed", tally.ValueBuckets{1, 2})
+				} else {
+					out.mixed[k] = s.Histogram("mixed", tally.DurationBuckets{time.Millisecond, time.Second})
+				}
 				for _, n := range gr.Perm(nNames) {
 					name := fmt.Sprintf("m%d", n)
 					for _, kind := range gr.Perm(4) {
@@ -180,6 +194,9 @@ func c09Round(c *mon.Ctx, r *mon.Rand) {
 		for g := 1; g < N; g++ {
 			if ptrOf(res[g].kidScopes[k]) != ptrOf(res[0].kidScopes[k]) {
 				bad("child-scope-split", fmt.Sprintf("goroutines 0 and %d received different scope objects for child %s", g, kidIdent(k)))
+			}
+			if res[g].mixed[k] != res[0].mixed[k] {
+				bad("metric-split/histogram", fmt.Sprintf("goroutines 0 and %d received different histograms for the name \"mixed\" of %s (requested with value buckets by one, duration buckets by the other)", g, kidIdent(k)))
 			}
 			for n := 0; n < nNames; n++ {
 				if res[g].counters[k][n] != res[0].counters[k][n] {
@@ -223,9 +240,12 @@ func c09Round(c *mon.Ctx, r *mon.Rand) {
 		var tags map[string]string
 		for n := 0; n < nNames; n++ {
 			if k%2 == 0 {
-				name, tags = fmt.Sprintf("k%d.m%d", k, n), nil
+				name, tags = fmt.Sprintf("k%d.m%d", k, n), mon.RefOverlay(rootTags, nil)
 			} else {
-				name, tags = fmt.Sprintf("m%d", n), map[string]string{"kid": fmt.Sprintf("k%d", k)}
+				name, tags = fmt.Sprintf("m%d", n), mon.RefOverlay(rootTags, map[string]string{"kid": fmt.Sprintf("k%d", k)})
+			}
+			if len(tags) == 0 {
+				tags = nil
 			}
 			key := mon.IdentKey(name, tags)
 			c.Event("first-use-metrics-checked", 4)
@@ -281,7 +301,7 @@ func c09Round(c *mon.Ctx, r *mon.Rand) {
 			}
 		}
 	}
-	if a := agg[mon.IdentKey("existing", nil)]; a.Sum != existingSum {
+	if a := agg[mon.IdentKey("existing", rootTags)]; a.Sum != existingSum {
 		bad("conservation-existing", fmt.Sprintf("existing counter delivered %d, incremented %d", a.Sum, existingSum))
 	}
 	if verdict, why := hist.Check(30 * time.Second); verdict == "illegal" {
